@@ -271,6 +271,18 @@ def candidates(req):
     return res
 
 
+def effective(mechs, steps):
+    """the authenticators as the world sees them: every mechanism, plus one entry per step that overrides assertions"""
+    res = list(mechs)
+    by_id = {m["id"]: m for m in mechs}
+    seen = set()
+    for st in steps:
+        if st.get("key") and st["key"] not in seen:
+            seen.add(st["key"])
+            res.append(dict(by_id[st["ref"]], id=st["key"], aud=st["aud"]))
+    return res
+
+
 def world_for(mechs, reqs):
     cands = set()
     for r in reqs:
@@ -518,6 +530,9 @@ def gen_steps(rng, mechs, max_len):
             st["fb"] = rng.random() < 0.5
         if m["type"] in ("jwt", "oauth2_introspection", "generic") and rng.random() < 0.2:
             st["ttl"] = True
+        if m["type"] in ("jwt", "oauth2_introspection") and rng.random() < 0.15:
+            st["aud"] = rng.choice([["api"], ["other"], ["web"]])
+            st["key"] = m["id"] + "~aud-" + st["aud"][0]
         steps.append(st)
     # the typical shape: a catch-all at the end
     if rng.random() < 0.5:
@@ -532,7 +547,7 @@ def tokens_used(reqs):
     return [dict(JWTS[ph], ph=ph) for ph in sorted(JWTS) if ph in text]
 
 
-def assemble(mechs, steps, reqs, note=None):
+def assemble(mechs, steps, reqs, note=None, cache=False):
     """complete a case: tokens to mint, endpoint registries, the world"""
     cands = set()
     for r in reqs:
@@ -541,7 +556,9 @@ def assemble(mechs, steps, reqs, note=None):
          "tokens": tokens_used(reqs) or [],
          "intro": {k: v for k, v in INTRO.items() if k in cands},
          "ident": {k: v for k, v in IDENT.items() if k in cands},
-         "world": world_for(mechs, reqs)}
+         "world": world_for(effective(mechs, steps), reqs)}
+    if cache:
+        c["cache"] = True
     if note:
         c["note"] = note
     return c
@@ -555,7 +572,12 @@ def gen_case(rng, n_reqs=12, max_len=5):
     steps = gen_steps(rng, mechs, max_len)
     in_chain = [m for m in mechs if any(s["ref"] == m["id"] for s in steps)]
     reqs = [gen_request(rng, in_chain, mechs) for _ in range(n_reqs)]
-    return assemble(mechs, steps, reqs)
+    cache = rng.random() < 0.5
+    if cache:
+        # repeat some requests so that cached keys / introspection responses / identities are hit
+        for _ in range(rng.choice([2, 4, 6])):
+            reqs.append(json.loads(json.dumps(rng.choice(reqs))))
+    return assemble(mechs, steps, reqs, cache=cache)
 
 
 # ---------------------------------------------------------------------------------------------------------------
